@@ -212,6 +212,13 @@ func genAgent(r *Rng, tier string, p *Plan) {
 			p.Add(Op{K: "outcome", I: int64(a), S: PickOf(r, "fail", "fail", "pending_ok", "pending_fail", "pending_pending")})
 		}
 	}
+	if r.Bool(0.3) {
+		// OpAMP.RecordUsage is switched off for a while (a remote config change)
+		// and on again; the counters keep growing meanwhile
+		off := r.I64n(now + 1)
+		p.Add(Op{K: "record", At: off, N: 0})
+		p.Add(Op{K: "record", At: off + PickOf(r, int64(150_000), 600_000, 2_000_000), N: 1})
+	}
 	p.SortOps()
 }
 
@@ -290,8 +297,9 @@ func runAgent(t *testing.T, p *Plan) *Outcome {
 			}
 			out.Logf("%s delivered=%v held=%v collected=%v", where, w.delivered, heldBySig, collected)
 		}
+		recording := true
 		drv.AfterTick = func(tk *SimTicker, delivered bool) {
-			if strings.Contains(tk.Key, "healthCheck") && delivered {
+			if strings.Contains(tk.Key, "healthCheck") && delivered && recording {
 				for k, v := range grown {
 					collected[k] = v
 				}
@@ -301,6 +309,22 @@ func runAgent(t *testing.T, p *Plan) *Outcome {
 		var last int64
 		for _, op := range p.Ops {
 			op := op
+			if op.K == "record" {
+				if op.At > last {
+					last = op.At
+				}
+				drv.AtSig(us(op.At), "record", fmt.Sprintf("op/%d", op.ID), fmt.Sprint(op.N), func() {
+					v := config.DefaultTrue(op.N == 1)
+					cfg.Mux.Lock()
+					cfg.GetOpAmpConfigVal.RecordUsage = &v
+					cfg.Mux.Unlock()
+					recording = op.N == 1
+					if !recording {
+						out.Fault("usage_recording_switched_off")
+					}
+				})
+				continue
+			}
 			if op.K != "grow" {
 				continue
 			}
